@@ -213,6 +213,13 @@ def eval (S : Sem) (ρ : Env) : Expr → Option Int
       | some a, some b => evalBin op (tyOf S l) (tyOf S r) a b
       | _, _ => none
 
+/-- the variables of an expression -/
+def Expr.vars : Expr → List Nat
+  | .lit _ _ => []
+  | .var _ x => [x]
+  | .un _ _ e => e.vars
+  | .bin _ _ l r => l.vars ++ r.vars
+
 /-- no variable occurs -/
 def Expr.closed : Expr → Bool
   | .lit _ _ => true | .var _ _ => false | .un _ _ e => e.closed | .bin _ _ l r => l.closed && r.closed
